@@ -2,7 +2,7 @@
 # runs the repository's own 78-test suite with the verification guard OFF (there are no hooks in /repo, so this is the plain build)
 set -e
 export OMPI_ALLOW_RUN_AS_ROOT=1 OMPI_ALLOW_RUN_AS_ROOT_CONFIRM=1 OMPI_MCA_rmaps_base_oversubscribe=1
-cd /repo
+mkdir -p /verif/out; cd /repo
 [ -f _build/build.ninja ] || cmake -G Ninja -B _build -DCMAKE_BUILD_TYPE=RelWithDebInfo -DCMAKE_CXX_FLAGS=-Wno-error >/dev/null
-cmake --build _build >/dev/null
+cmake --build _build >/verif/out/baseline_build.log 2>&1 || { grep -E 'error|FAILED' /verif/out/baseline_build.log | head -20; echo 'BASELINE BUILD FAILED'; exit 1; }
 ctest --test-dir _build -j8 --timeout 900 "$@"
